@@ -777,7 +777,10 @@ func recognise(s string) bool {
 }
 
 // ---------- driver ----------
+var junkChars = []string{"\x00", "\x01", "\x07", "\x0b", "\x0c", "\x1f", "\x7f", "\u00a0", "\u0085", "\u2003", "\u3000", "#", "?", ";", "\\", "{", "}", "~", "`", "%", "^", "&"}
+
 var (
+	reUniSpace = regexp.MustCompile("[\x0b\x0c\u00a0\u0085\u2003\u3000]")
 	reWsNumber = regexp.MustCompile(`[0-9]\s+\.\s*[0-9]|[0-9]\.\s+[0-9]`)
 	reWsQName  = regexp.MustCompile(`[A-Za-z0-9_.-]\s+:[A-Za-z_*]|[A-Za-z0-9_.-]:\s+[A-Za-z_*]|[A-Za-z0-9_.-]\s+:\s+[A-Za-z_*]`)
 )
@@ -798,6 +801,12 @@ func classOf(f failure) string {
 				}
 			}
 		}
+	}
+	if acceptedInvalid && reUniSpace.MatchString(f.Expr) {
+		return "unicode-space-as-white-space"
+	}
+	if acceptedInvalid && strings.Contains(f.Expr, "#") {
+		return "hash-as-name-character"
 	}
 	if acceptedInvalid && reWsNumber.MatchString(f.Expr) {
 		return "white-space-inside-number"
@@ -909,6 +918,17 @@ func main() {
 							sw := append([]string{}, toks...)
 							sw[i], sw[i+1] = sw[i+1], sw[i]
 							checkSyntax(join(sw, 0))
+						}
+					}
+					if nTrees <= 150 {
+						// characters that are neither tokens nor XPath white space (#x20 #x9 #xD #xA), between tokens
+						for pos := 0; pos <= len(toks); pos++ {
+							for _, junk := range junkChars {
+								checkSyntax(strings.TrimSpace(join(toks[:pos], 0) + " " + junk + " " + join(toks[pos:], 0)))
+								if pos > 0 && pos < len(toks) {
+									checkSyntax(join(toks[:pos], 0) + junk + join(toks[pos:], 0))
+								}
+							}
 						}
 					}
 					checkSyntax(s + " )")
